@@ -68,7 +68,7 @@ class MTS(codec.BitFieldSet):
 			return 4 * GMSK_BURST_LEN
 		elif (mod >> 1) == 0b101: # 32QAM
 			return 5 * GMSK_BURST_LEN
-		elif mod == 0b0110: # GMSK (Access Burst)
+		elif (mod >> 1) == 0b011: # GMSK (Access Burst)
 			return 1 * GMSK_BURST_LEN
 		raise ValueError('Unknown modulation type')
 
